@@ -237,6 +237,10 @@ class C10(Check):
         plan["p_format"] = rng.choice([0.3, 1.0])
         plan["tp"] = rng.choice([None, 0.05, 0.5])
         plan["lat"] = rng.choice([[0.0001, 0.0005], [0.001, 0.004]])
+        # now and then a message takes 0.12-0.22 s longer (more than a short tester-present interval; request AND reply delayed together stay below every timeout the client
+        # uses: 0.5 s for the pings of wait_for_ecu, 1 s for requests); own stream of draws
+        rng7 = rng_for(seed, "C10-spikes", index)
+        plan["spike_p"] = rng7.choice([0.0, 0.0, 0.0, 0.01, 0.03])
         plan["segment"] = rng.choice(["whole", "random", "bytes"])
         plan["net_seed"] = rng.getrandbits(30)
         return plan
@@ -316,7 +320,8 @@ class C10(Check):
         return [bytes([svc, did >> 8, did & 0xFF]) + payload]
 
     def _run(self, plan: dict[str, Any], world: CmdWorld, res: dict[str, Any]) -> None:
-        world.net.policy_factory = lambda i, d: Policy(seed=plan["net_seed"] + 2 * i + (d == "s2c"), segment=plan["segment"], lat_min=plan["lat"][0], lat_max=plan["lat"][1])
+        world.net.policy_factory = lambda i, d: Policy(seed=plan["net_seed"] + 2 * i + (d == "s2c"), segment=plan["segment"], lat_min=plan["lat"][0], lat_max=plan["lat"][1],
+                                                           spike_p=plan.get("spike_p", 0.0), spike_min=0.12, spike_max=0.22)
         world.install(capture=lambda r: getattr(r, "tags", None) == ["result"])
         model = {int(s): {int(k): v for k, v in sv.items()} for s, sv in plan["model"].items()}
         ecu = self._mk_ecu(plan)
@@ -372,6 +377,8 @@ class C10(Check):
             bump(res["faults"], "ecu_drops_out_of_session_on_probe")
         if plan.get("skip_expr"):
             bump(res["faults"], "skip_as_range_expression")
+        if world.net.counters.get("latency_spikes"):
+            bump(res["faults"], "latency_spikes_below_every_timeout", world.net.counters["latency_spikes"])
         if getattr(ecu, "late_resets", 0):
             bump(res["faults"], "ecu_reboots_after_acknowledging_the_reset", ecu.late_resets)
         if getattr(ecu, "spont_fired", 0):
